@@ -181,5 +181,65 @@ impl<'r> TxnAcquisition<'r> {
 //@@ end
 }
 
+// ---------------------------------------------------------------- TransactionAcquisition::acquire (transaction/mod.rs)
+opaque!(TransactionId, ValueS, Symbol);
+pub uninterp spec fn binary_of(id: TransactionId) -> ValueS;
+pub struct Value {}
+impl Value { #[verifier::external_body] pub fn Binary(id: TransactionId) -> (r: ValueS) ensures r == binary_of(id) { unimplemented!() } }
+impl Clone for TransactionId { #[verifier::external_body] fn clone(&self) -> (r: Self) ensures r == *self { unimplemented!() } }
+pub struct TxnKey {}
+pub const TXN_ID_KEY: TxnKey = TxnKey {};
+impl Symbol { #[verifier::external_body] pub fn from(k: TxnKey) -> (r: Symbol) { unimplemented!() } }
+/// the link's flow properties (`Fields`): only whether they hold a txn-id, and which
+pub struct Fields { pub txn: Ghost<Option<ValueS>> }
+impl Fields {
+    pub fn new() -> (r: Fields) ensures r.txn@ is None { Fields { txn: Ghost(None) } }
+    #[verifier::external_body]
+    pub fn contains_key(&self, k: TxnKey) -> (r: bool) ensures r == self.txn@ is Some { unimplemented!() }
+    #[verifier::external_body]
+    pub fn insert(&mut self, k: Symbol, v: ValueS) -> (r: Option<ValueS>) ensures final(self).txn@ == Some(v) { unimplemented!() }
+    #[verifier::external_body]
+    pub fn swap_remove(&mut self, k: TxnKey) -> (r: Option<ValueS>) ensures final(self).txn@ is None { unimplemented!() }
+}
+pub struct FlowStateA { pub properties: Option<Fields> }
+pub struct AcqReceiver { pub flow: FlowStateA, pub flows: Ghost<Seq<(Option<u32>, Option<bool>, bool, Option<ValueS>)>> }
+pub uninterp spec fn acq_flow_res(r: AcqReceiver, credit: u32) -> Result<(), FlowError>;
+/// the txn-id a flow sent now would carry
+pub open spec fn txn_of(f: FlowStateA) -> Option<ValueS> { match f.properties { Some(p) => p.txn@, None => None } }
+impl AcqReceiver {
+    /// `recver.inner.link.send_flow(&recver.inner.outgoing, credit, drain, echo, ..)`: the flow carries the link's properties as they are at that moment
+    #[verifier::external_body]
+    pub fn link_send_flow(&mut self, credit: Option<u32>, drain: Option<bool>, echo: bool, _x: bool) -> (r: Result<(), FlowError>)
+        ensures final(self).flows@ == old(self).flows@.push((credit, drain, echo, txn_of(old(self).flow))), final(self).flow == old(self).flow,
+    { unimplemented!() }
+}
+pub struct AcqTxn { pub id: TransactionId }
+impl AcqTxn { pub fn txn_id(&self) -> (r: &TransactionId) ensures *r == self.id { &self.id } }
+pub struct TxnAcquisitionA<'r> { pub txn: AcqTxn, pub recver: &'r mut AcqReceiver }
+pub enum FlowErrorA { IllegalState, Other(FlowError) }
+impl AcqTxn {
+//@@ fn file=fe2o3-amqp/src/transaction/mod.rs impl=`~TransactionAcquisition:Sized` name=acquire implfuture id=TransactionAcquisition::acquire
+//@@ generics <'r>
+//@@ nowhere
+//@@ param recver : &'r mut AcqReceiver
+//@@ param credit : u32
+//@@ ret Result<TxnAcquisitionA<'r>, FlowErrorA>
+//@@ subst `let mut writer = recver.inner.link.flow_state.lock.write();` => `let mut writer = &mut recver.flow;` rule=R4
+//@@ subst `recver .inner .link .send_flow(&recver.inner.outgoing, ` => `recver.link_send_flow(` rule=R9
+//@@ subst `FlowError::IllegalState` => `FlowErrorA::IllegalState` rule=R11
+//@@ subst `Err(error) => { __E1 Err(error) }` => `Err(error) => { __E1 Err(FlowErrorA::Other(error)) }` rule=R11
+//@@ subst `TxnAcquisition { txn: self, recver }` => `TxnAcquisitionA { txn: self, recver }` rule=R7
+//@@ spec
+    ensures
+        txn_of(old(recver).flow) is Some ==> r is Err && final(recver).flows@ == old(recver).flows@ && final(recver).flow == old(recver).flow,       // [C18.acquisition.one-transaction-per-link] a link that already acquires under a transaction is not taken into a second one: refused, nothing sent, nothing changed
+        txn_of(old(recver).flow) is None ==> ({
+            let fl = match r { Ok(a) => a.recver.flows@, Err(_) => final(recver).flows@ };
+            fl.len() == old(recver).flows@.len() + 1 && fl.last().0 == Some(credit) && fl.last().1 == None::<bool> && fl.last().2 == false
+        }),       // [C09.acquisition.credit-flow-as-asked] starting an acquisition issues exactly the credit asked for, in ONE flow, without drain
+        r is Ok ==> r->Ok_0.txn == self,       // [C18.acquisition.retirement-under-the-acquisitions-transaction] the acquisition holds THIS transaction
+        r is Err ==> txn_of(final(recver).flow) == txn_of(old(recver).flow),       // [C18.acquisition.failed-acquire-leaves-no-trace] when the flow cannot be sent the txn-id is taken out of the link's properties again
+//@@ end
+}
+
 } // verus!
 fn main() {}
